@@ -69,6 +69,12 @@ FREE = "anything you like, as long as it is NOT one of the ideas listed above or
 FOCUS_R7 = {k: FREE for k in ("C06", "C07", "C08", "C09", "C10", "C11", "C12", "C13", "C14", "C15", "C16", "C18", "C19", "C20")}
 
 
+# round 8 (short round, one change per agent): two cooperating sites / multi-step histories
+PAIR = "a change made of TWO small edits at different sites that each look harmless alone and only together break the property, or one edit whose effect shows only after a multi-step history (a particular sequence of calls or members, state carried from one member or call to the next); again nothing from the list above"
+FOCUS_R8 = {k: PAIR for k in ("C06", "C07", "C13", "C15", "C16", "C20")}
+SHORT = "\n\nTIME LIMIT: you have about 12 minutes in total. Produce ONLY change A (ignore everything said about B), run `make -j8 check` once, keep the demonstration small, and reply as soon as MUTANT_A is complete.\n"
+
+
 def prop_text(d):
     return "Property %s: %s\n\nStatement: %s\n\nQuantifier: %s\n\nWhy the existing tests cannot settle it: %s\n\nWhere it lives in the code (anchors): files %s\nMechanisms:\n%s\n" % (
         d["id"], d["title"], d["statement"], d["quantifier"]["text"], d["why_tests_cant"], ", ".join(d["anchors"]["files"]),
@@ -77,7 +83,7 @@ def prop_text(d):
 
 def main():
     rdir, rname = sys.argv[1], sys.argv[2]
-    focus_table = {"fourth": FOCUS_R4, "fifth": FOCUS_R5, "sixth": FOCUS_R6, "seventh": FOCUS_R7}.get(rname, FOCUS_R7)
+    focus_table = {"fourth": FOCUS_R4, "fifth": FOCUS_R5, "sixth": FOCUS_R6, "seventh": FOCUS_R7, "eighth": FOCUS_R8}.get(rname, FOCUS_R7)
     os.makedirs(rdir, exist_ok=True)
     props = {}
     for l in open(os.path.join(VERIF, "properties.jsonl")):
@@ -100,6 +106,8 @@ Aim for changes that are hard to notice: they should need a fault at a particula
         t = tmpl.replace("@@DIR@@", d).replace("@@PROP@@", prop_text(props[p]))
         k = "\n".join(" - " + x for x in known.get(p, []))
         t = t.replace("What to produce:", extra.replace("@@KNOWN@@", k).replace("@@FOCUS@@", focus) + "\nWhat to produce:")
+        if rname == "eighth":
+            t += SHORT
         open(os.path.join(rdir, "prompt_%s.txt" % p), "w").write(t)
     print(" ".join(sorted(focus_table)))
 
